@@ -91,7 +91,11 @@ def _parse_timestamp(timestamp):
         try:
             # aaaa.bbbb. Nanosecond resolution supported.
             parts = timestamp.split('.', 1)
-            return Timestamp(int(parts[0]), int(parts[1][:9].ljust(9, "0")))
+            sec = int(parts[0])
+            int(parts[1])  # The whole fraction must be digits: 1.234567891e-05 is a float, not aaaa.bbbb.
+            if sec == 0 and parts[0].startswith('-'):
+                raise ValueError  # -0.5: a Timestamp cannot carry the sign, keep the float.
+            return Timestamp(sec, int(parts[1][:9].ljust(9, "0")))
         except ValueError:
             # Float.
             ts = float(timestamp)
